@@ -24,7 +24,7 @@ ASSUMPTIONS = [
 ]
 MONITORS = ("status answers vs os.walk listing; FaultyFS counters prove both lookup strategies ran; wrappers on ObjectDBIndex.update/clear "
             "log what was indexed; index content vs upload log + present directory objects after every step")
-REQUIRED_COUNTERS = ["unprotected_valid_objects", "two_handle_histories", "status_queries", "strategy/per-object-exists", "strategy/traverse", "compare_status_calls", "expanded_queries",
+REQUIRED_COUNTERS = ["handle_wrote_before_foreign_writes", "source_lost_files", "unprotected_valid_objects", "two_handle_histories", "status_queries", "strategy/per-object-exists", "strategy/traverse", "compare_status_calls", "expanded_queries",
                      "histories", "history_steps", "index_checks", "index_updates_seen", "index_clears_seen", "external_deletions",
                      "failed_transfer_steps", "indexed_dir_exists_checked", "store/local", "store/remote", "store/base"]
 
@@ -72,9 +72,21 @@ def run_shard(ctx):
             raw = canonical_dir_bytes(listing)
             dirs[H("md5", raw) + DIR_SUFFIX] = (listing, raw)
         present = set()
+        if cls != "remote" and rng.random() < 0.5:
+            # the querying handle has itself written to the store before; everything else arrives through other hands
+            first = gen.small_content(rng) + b"own-write"
+            fp = os.path.join(d, "own-write")
+            with open(fp, "wb") as f:
+                f.write(first)
+            odb.add(fp, env.localfs(), H("md5", first))
+            blobs[H("md5", first)] = first
+            present.add(H("md5", first))
+            res.count("handle_wrote_before_foreign_writes")
         if rng.random() < 0.4:
             blobs[H("md5", b"")] = b""  # the empty file's object is an object like any other
         for o, b in blobs.items():
+            if o in present:
+                continue
             if rng.random() < 0.6:
                 # valid objects that are not write-protected (written by another tool, or protect failed on that filesystem)
                 unprot = rng.random() < 0.3
@@ -229,7 +241,18 @@ def run_shard(ctx):
             for _step in range(rng.randrange(4, 13)):
                 res.count("history_steps")
                 index = rng.choice(handles)
-                op = rng.choice(["transfer", "transfer", "failing-transfer", "delete-file", "delete-dir", "status", "compare"])
+                op = rng.choice(["transfer", "transfer", "failing-transfer", "delete-file", "delete-dir", "status", "compare", "source-loses-file"])
+                if op == "source-loses-file":
+                    objs_d, _t, _s = list_store(sc.dest_root)
+                    cands = sorted(o for o in sc.file_oids() if o not in objs_d and os.path.exists(sc.src_path(o)))
+                    if cands:
+                        o = rng.choice(cands)
+                        os.chmod(sc.src_path(o), 0o644)
+                        os.unlink(sc.src_path(o))
+                        res.count("source_lost_files")
+                        interesting = True
+                        log.append((op, o))
+                    continue
                 if op in ("transfer", "failing-transfer"):
                     fo = sorted(sc.file_oids() | {t["oid"] for t in sc.trees})
                     S = frozenset(o for o in fo if rng.random() < 0.3) if op == "failing-transfer" else frozenset()
